@@ -28,6 +28,8 @@ def population(tier, seed):
         r = rng.random()
         if r < 0.06:
             g = gen.lr1_not_lalr(rng, i)
+        elif r < 0.14:
+            g = gen.recovery_shapes(rng, i)
         elif r < 0.55:
             g = gen.random_grammar(rng, i, max_nt=3, max_t=3, max_prods=7, max_rhs=3,
                                    starts=(2 if rng.random() < 0.2 else 1))
@@ -37,11 +39,12 @@ def population(tier, seed):
         else:
             g = gen.random_grammar(rng, i, max_nt=2, max_t=2, max_prods=5, max_rhs=3, p_empty=0.3)
         g["id"] = "c%04d" % i
-        if rng.random() < 0.25:
+        if not g.get("recovery") and rng.random() < 0.25:
             g = core.add_recovery(g, rng)
         if rng.random() < 0.3:
             g = core.add_markers(g, rng)
-        pop.append(core.annotate(g, rng))
+        # recovery shapes: more locations and fallible actions (their failure and spans during recovery matter)
+        pop.append(core.annotate(g, rng, p_loc=0.5, p_fallible=0.4) if g.get("recshape") else core.annotate(g, rng))
     return pop
 
 
